@@ -83,6 +83,42 @@ def ess_at(ll, old, b):
     return int(v)
 
 
+def ess_real(ll, old, b):
+    """real-valued ESS (before int) with the same numpy lines; NaN possible"""
+    inc = b - old
+    with np.errstate(all="ignore"):
+        Wm = np.exp(inc * (ll - ll.max()))
+        Wm_n = Wm / sum(Wm)
+        return float(1 / np.sum(Wm_n ** 2))
+
+
+def ess_of_inc(ll, inc):
+    with np.errstate(all="ignore"):
+        Wm = np.exp(inc * (ll - ll.max()))
+        Wm_n = Wm / sum(Wm)
+        v = 1 / np.sum(Wm_n ** 2)
+    return None if math.isnan(v) else int(v)
+
+
+class RecArr(np.ndarray):
+    """ndarray input that records the scalars it is multiplied with (the increments `inc_beta` the
+    bisection tries); values and results are those of a plain ndarray"""
+    log = []
+
+    def __array_ufunc__(self, ufunc, method, *inputs, **kw):
+        if ufunc is np.multiply and method == "__call__" and len(inputs) == 2:
+            for a in inputs:
+                if isinstance(a, (float, int, np.floating, np.integer)) or (isinstance(a, np.ndarray) and a.shape == () and not isinstance(a, RecArr)):
+                    RecArr.log.append(float(a))
+        args = [a.view(np.ndarray) if isinstance(a, RecArr) else a for a in inputs]
+        if "out" in kw:
+            kw["out"] = tuple(o.view(np.ndarray) if isinstance(o, RecArr) else o for o in kw["out"])
+        out = getattr(ufunc, method)(*args, **kw)
+        if isinstance(out, np.ndarray) and out.shape != ():
+            return out.view(RecArr)
+        return out
+
+
 def wm_at(ll, old, b):
     inc = b - old
     with np.errstate(all="ignore"):
@@ -125,7 +161,7 @@ def gen_ll(rng, n):
 def gen_bisect_cases(ctx):
     rng = ctx.rng
     cases = []
-    n_cases = ctx.scale(300, 20000)
+    n_cases = ctx.scale(300, 12000)
     for k in range(n_cases):
         n = rng.choice([51, 52, 60, 64, 100, 100, 128, 200, rng.randint(51, 400)])
         kind, v = gen_ll(rng, n)
@@ -167,13 +203,16 @@ def gen_bisect_cases(ctx):
 
 def run_bisect_impl(c):
     T = _T()
-    ll = np.array(c["ll"], dtype=float)
+    ll = np.array(c["ll"], dtype=float).view(RecArr)
+    RecArr.log = []
     try:
         with np.errstate(all="ignore"):
             b, lev, W, e = T.compute_beta_update_evidence(c["old"], ll, c["lev"], c["prev"])
-        return ("ok", float(b), float(lev), np.asarray(W, dtype=float), e)
+        res = ("ok", float(b), float(lev), np.array(W, dtype=float).view(np.ndarray), e)
     except BaseException as ex:  # noqa
-        return ("err", err_kind(ex))
+        res = ("err", err_kind(ex))
+    c["_incs"] = list(RecArr.log)
+    return res
 
 
 def model_bisect(cases):
@@ -197,7 +236,16 @@ def model_bisect(cases):
                 if i not in lls:
                     lls[i] = np.array(cases[i]["ll"], dtype=float)
                 bq = F(t[1])
-                e = ess_at(lls[i], cases[i]["old"], float(bq))
+                incs = cases[i].get("_incs")
+                k = len(tabs[i][0])
+                if incs is None:
+                    e = ess_at(lls[i], cases[i]["old"], float(bq))
+                elif k < len(incs) and abs((float(bq) - cases[i]["old"]) - incs[k]) <= 3e-14:
+                    e = ess_of_inc(lls[i], incs[k])      # the implementation's own k-th evaluation
+                else:
+                    res[i] = (["bad", f"query {k} at {float(bq)!r} is not the implementation's evaluation {k}"], k)
+                    lls.pop(i, None)
+                    continue
                 tabs[i][0].append(t[1])
                 tabs[i][1].append("nan" if e is None else str(e))
                 nxt.append(i)
@@ -237,6 +285,8 @@ def tie_bisect(ctx, c, impl, mres, wrep):
         return f"ESS impl {e} model {me}"
     if mclamp != (b == 1):
         return "clamp flag"
+    if "_incs" in c and len(c["_incs"]) != nq + (1 if mclamp else 0):
+        return f"implementation evaluated {len(c['_incs'])} increments, model {nq} (+1 if clamped)"
     # weights / evidence through the model's normalisation of the supplied exp values
     wt = wrep.split()
     if wt[0] != "ok":
@@ -302,23 +352,28 @@ def oracle_bisect(ctx, c, impl):
         out.append((dict(base, symptom="evidence-not-finite"), f"log evidence {lev!r}"))
     # optimality of the increment (ESS is antitone in the increment)
     E = lambda x: ess_at(ll, old, x)
+    V = lambda x: ess_real(ll, old, x)
+    dl = 1e-9 * n                      # slack on the real-valued ESS next to the int() steps
+    above = lambda x: V(x) >= math.floor(rN) + 1 - dl      # int(ESS(x)) >  rN up to rounding
+    below = lambda x: V(x) < math.ceil(rN) + dl            # int(ESS(x)) <  rN up to rounding
+    atleast = lambda x: V(x) >= math.ceil(rN) - dl         # int(ESS(x)) >= rN up to rounding
     if b < 1:
         if e != E(b):
             out.append((dict(base, symptom="ess-mismatch"), f"returned ESS {e} is not the ESS of the returned weights {E(b)}"))
         if e != rN:
             lo, hi = b - TOLX, b + TOLX
-            if lo > old and not E(lo) > rN:
+            if lo > old and not above(lo):
                 out.append((dict(base, symptom="increment-too-large"),
                             f"ESS({lo!r})={E(lo)} is already below the target {rN!r}: beta {b!r} overshoots by more than the tolerance"))
-            if hi < 2 and not E(hi) < rN:
+            if hi < 2 and not below(hi):
                 out.append((dict(base, symptom="increment-too-small"),
                             f"ESS({hi!r})={E(hi)} still meets the target {rN!r}: beta {b!r} is not the largest (within tolerance)"))
     else:
         lo = 1 - TOLX
-        if lo > old and not E(lo) >= rN:
+        if lo > old and not atleast(lo):
             out.append((dict(base, symptom="clamp-unjustified"),
                         f"beta clamped to 1 but ESS({lo!r})={E(lo)} is below the target {rN!r}"))
-        if e > E(1.0):
+        if e > math.floor(V(1.0) + dl):
             out.append((dict(base, symptom="ess-mismatch"), f"returned ESS {e} exceeds ESS at beta=1"))
     return out
 
@@ -575,7 +630,7 @@ def same_state(a, b):
 def gen_mh_cases(ctx):
     rng = ctx.rng
     cases = []
-    for k in range(ctx.scale(200, 10000)):
+    for k in range(ctx.scale(200, 6000)):
         dim = rng.choice([1, 2, 2, 3])
         pri = [gen_prior(rng) for _ in range(dim)]
         lld = gen_ll_desc(rng, pri)
@@ -631,6 +686,23 @@ def ev_close(a, tok, depth=6):
     return math.isfinite(a) and close(a, F(tok), depth)
 
 
+def post_close(a, tok, scale):
+    """tempered log-posteriors are sums with cancellation: the rounding error is relative to the
+    operands (|prior| + |beta*lik|), not to the result"""
+    a = float(a)
+    if tok == "nf":
+        return not math.isfinite(a)
+    if not math.isfinite(a):
+        return False
+    sc = max(abs(a), scale if math.isfinite(scale) else 0.0, 1e-300)
+    return abs(F(a) - F(tok)) <= 64 * F(core.ulp(sc))
+
+
+def _mag(post, beta, lik):
+    post, lik = float(post), float(lik)
+    return (abs(post) if math.isfinite(post) else 0.0) + (abs(beta * lik) if math.isfinite(lik) else 0.0)
+
+
 def tie_mh(c, o, steps, deltas, us, after_mvn, rep):
     res = o["res"]
     t = rep.split()
@@ -642,7 +714,8 @@ def tie_mh(c, o, steps, deltas, us, after_mvn, rep):
     mx = unql(t[1])
     if [F(float(v)) for v in x] != mx:
         return "final state differs"
-    if not ev_close(lik, t[2], 1) or not ev_close(post, t[3], 6):
+    scale = max(_mag(o["post0"], c["beta"], o["lik0"]), _mag(post, c["beta"], lik))
+    if not ev_close(lik, t[2], 1) or not post_close(post, t[3], scale):
         return f"lik/post impl {lik!r},{post!r} model {t[2]},{t[3]}"
     if acc != int(t[4]):
         return f"numAccepts impl {acc} model {t[4]}"
@@ -707,7 +780,7 @@ def oracle_mh(c, o, deltas, us, after_mvn, where="MCMC_MH"):
     if in_support(pri, x) and math.isfinite(lk):
         lp = math.fsum(logprior_ref(d, float(xi)) for d, xi in zip(pri, x))
         want = lp + beta * lk
-        if not floats_close(post, want, 1e-9, 1e-9):
+        if not floats_close(post, want, 1e-9, 1e-9 * (1 + abs(lp) + abs(beta * lk))):
             out.append((dict(base, symptom="stored-posterior"), f"stored tempered log-posterior {post!r}, the state has {want!r} at beta={beta!r}"))
     # 3. acceptance rule and bookkeeping against the independent reference
     rx, rl, rp, ra, rk = ref_mh(c, o, deltas, us)
@@ -918,8 +991,9 @@ def oracle_run(c, o):
             elif float(raw(j, cur)) != lik:
                 msg = ("mh-entry-likelihood", f"entry log-likelihood {lik!r} is not that of the start state")
             else:
-                want = math.fsum(logprior_ref(d, float(xi)) for d, xi in zip(pri, cur)) + beta * lik
-                if not floats_close(post, want, 1e-9, 1e-9):
+                lpr = math.fsum(logprior_ref(d, float(xi)) for d, xi in zip(pri, cur))
+                want = lpr + beta * lik
+                if not floats_close(post, want, 1e-9, 1e-9 * (1 + abs(lpr) + abs(beta * lik))):
                     msg = ("mh-entry-posterior", f"entry tempered log-posterior {post!r}, start state has {want!r} at beta={beta!r} (stage {k}, particle {j})")
             r = cl["ret"]
             if msg is None and (nxt.shape != (N, dim) or not np.array_equal(np.asarray(r[0], dtype=float), nxt[j]) or float(r[1]) != float(nl[j])):
@@ -1023,11 +1097,12 @@ def part_run(ctx):
                     r = calls[k * N + j]["ret"]
                     a = calls[k * N + j]["args"]
                     mx, ml, mp, ma = t[2 + 4 * j: 6 + 4 * j]
+                    scale = max(_mag(a[5], beta, a[4]), _mag(r[2], beta, r[1]))
                     if unql(mx) != [F(float(v)) for v in np.asarray(r[0], dtype=float)] or not ev_close(r[1], ml, 1) \
-                            or not ev_close(r[2], mp, 8) or int(ma) != int(r[3]):
+                            or not post_close(r[2], mp, scale) or int(ma) != int(r[3]):
                         why = f"particle {j}: MH result differs from the model"
                         break
-                    if not ev_close(a[5], t[2 + 4 * N + j], 8):
+                    if not post_close(a[5], t[2 + 4 * N + j], scale):
                         why = f"particle {j}: re-tempered posterior passed to MCMC_MH {float(a[5])!r} differs from the model {t[2 + 4 * N + j]}"
                         break
             if why is None:
